@@ -106,3 +106,4 @@ CFG = dict(
 )
 
 CFG["rule"] += ' C09Q: histories of 6-150 requests on one mux executed in one goroutine with GOMAXPROCS(1) (HTTP client stream read to its end, HTTP unary, a body above the 4 MiB limit, HttpBody reply, gRPC / gRPC-web unary of n pseudo-random bytes, gRPC with gzip in both directions for every n in 0..150 upwards, downwards and each from freshly collected pools, garbage collections in between; random histories over a 16-step alphabet): no request of a history may crash or wedge the server.'
+CFG["rule"] += ' cfg 4: a mux on which nothing was ever registered -- six base HTTP requests, four gRPC methods on the three gRPC entries and a WebSocket handshake.'
